@@ -256,6 +256,10 @@ fn gen_case(cur: &mut Cursor) -> Value {
                 let (p, _) = gen_position(cur);
                 multibyte_mix(cur, &p.fen())
             }
+            7 if cur.bool() => {
+                let t = crate::gen::positions::CORPUS[cur.below(crate::gen::positions::CORPUS.len())];
+                mutate(cur, t, FEN_ALPHABET)
+            }
             7 => alphabet_string(cur, FEN_ALPHABET, 90),
             8 => {
                 // long inputs
@@ -379,6 +383,12 @@ fn gen_pos_case(cur: &mut Cursor) -> Value {
                 let full = pos.san(&m, &pseudo);
                 let is_pawn_capture = m.man.1 == Pc::P && file_of(m.from) != file_of(m.to);
                 match kind {
+                    2 | 3 if pos.ep.is_some() && cur.bool() => {
+                        // any two files (adjacent or not), as the abbreviated capture notation: the en-passant branch of its
+                        // resolver is the only one that looks beyond the two named files
+                        let (a, b) = ((b'a' + cur.below(8) as u8) as char, (b'a' + cur.below(8) as u8) as char);
+                        format!("{}{}{}", a, if cur.chance(60) { "x" } else { "" }, b)
+                    }
                     0 | 1 if is_pawn_capture => {
                         // "cd", "cxd", "cd6"
                         let (a, b) = ((b'a' + file_of(m.from) as u8) as char, (b'a' + file_of(m.to) as u8) as char);
